@@ -9,16 +9,21 @@
      X10-b  the proven packet range belongs to the packet pointers that existed when the comparison was made
             (find_good_pkt_pointers), not to the path; a comparison of pkt + o with o < 0, o > 65535, or o = 0 in the
             open form proves nothing
-     X10-c  pointer +- REGISTER is not modelled (no scalar ranges here): rejected instead of accepted with an unknown
-            offset; pointer +- constant with |constant| or |result| >= 2^29 rejected (check_reg_sane_offset);
-            subtraction from the frame pointer rejected
+     X10-c  pointer +- REGISTER needs a BOUNDED register in the kernel; the original accepted any register and then any
+            access through a map value pointer with an "unknown" offset.  Scalars now carry an unsigned range where
+            one is known (constants, AND / ADD / MUL by a constant, unsigned comparison with a constant - what the
+            EtherCAT dispatcher uses to index its table), map value pointers a fixed offset plus a bounded variable
+            part with its alignment; everything else about a scalar stays unknown, and a register that is not
+            known to be bounded is refused as an offset.  The ranges kept here are never tighter than the kernel's.
+            Pointer +- constant with |constant| or |result| >= 2^29 rejected (check_reg_sane_offset); subtraction
+            from the frame pointer rejected
      X10-d  LD_IMM64: pseudo sources other than 0 / 1 not modelled; source 1 needs an existing map and a zero
             upper half
      X10-e  context: field 20 (egress_ifindex) is not readable by an XDP program attached to a device; field 8
             (data_meta) is a pointer, not a scalar
      X10-f  byte swap: the 64-bit class has only the unconditional form (source bit clear); NEG has no register form
      X10-g  atomic operations: only STX | ATOMIC with operation field 0 (add) is modelled; ST has only mode MEM;
-            LDX only mode MEM
+            LDX only mode MEM; an atomic operation needs a naturally aligned address on every kind of memory
    The original header follows.                                                                                  *)
 (* C05 - the acceptance rules of the Linux eBPF verifier that the generator relies on, as a
    type-state machine explored by TLC over ALL paths of a program (ebpfcat emits forward jumps only,
@@ -57,6 +62,41 @@ VU == [t |-> "u"]
 VS == [t |-> "s"]
 IsPtr(v) == v.t \in {"ctx", "stk", "pkt", "end", "mv", "meta"}      \* X10-e: "meta" = xdp_md.data_meta
 MAXVAR == 536870912                                                  \* X10-c: BPF_MAX_VAR_OFF = 1 << 29
+(* X10-c: a scalar is [t |-> "s"] (nothing known) or carries lo <= value <= hi (unsigned, 0 <= lo <= hi < 2^29) and
+   `al`, a power of two (at most 8) known to divide it.  Knowing LESS than the kernel is always safe here.          *)
+SR(lo, hi, al) == [t |-> "s", lo |-> lo, hi |-> hi, al |-> al]
+Ranged(v) == v.t = "s" /\ "lo" \in DOMAIN v
+MkS(lo, hi, al) == IF lo >= 0 /\ lo <= hi /\ hi < MAXVAR THEN SR(lo, hi, al) ELSE [t |-> "s"]
+MinN(a, b) == IF a < b THEN a ELSE b
+MaxOf2(a, b) == IF a > b THEN a ELSE b
+(* the result of a 64-bit ALU operation with an immediate on the scalar d (scalar_min_max_add / _mul / _and) *)
+ScalarAlu(op, k, d) ==
+    LET code == op \div 16 IN
+    IF op % 8 # 7 \/ (op \div 8) % 2 = 1 THEN [t |-> "s"]
+    ELSE IF code = 11 THEN MkS(k, k, 1)
+    ELSE IF code = 5 /\ k >= 0 THEN MkS(0, IF Ranged(d) THEN MinN(d.hi, k) ELSE k, 1)
+    ELSE IF ~Ranged(d) THEN [t |-> "s"]
+    ELSE IF code = 0 /\ k >= 0 /\ k < MAXVAR THEN MkS(d.lo + k, d.hi + k, 1)
+    ELSE IF code = 2 /\ k > 0 /\ k <= 4096 /\ d.hi <= 65535
+         THEN MkS(d.lo * k, d.hi * k, IF k \in {2, 4, 8, 16, 32, 64, 128, 256, 512, 1024, 2048, 4096}
+                                      THEN MinN(8, d.al * k) ELSE 1)
+    ELSE [t |-> "s"]
+(* what `v code k` being `truth` tells about the scalar v: 64-bit unsigned comparison with a constant 0 <= k < 2^29
+   (regs_refine_cond_op); an impossible outcome keeps v as it is *)
+Refined(code, v, k, truth) ==
+    LET c == IF truth THEN code
+             ELSE CASE code = 1 -> 5 [] code = 5 -> 1 [] code = 2 -> 11 [] code = 11 -> 2
+                    [] code = 3 -> 10 [] code = 10 -> 3 [] OTHER -> 0
+        lo == IF Ranged(v) THEN v.lo ELSE 0
+        al == IF Ranged(v) THEN v.al ELSE 1
+        r == CASE c = 1 -> <<k, k>>                                        \* v = k
+               [] c = 10 -> <<lo, IF Ranged(v) THEN MinN(v.hi, k - 1) ELSE k - 1>>      \* v < k
+               [] c = 11 -> <<lo, IF Ranged(v) THEN MinN(v.hi, k) ELSE k>>              \* v <= k
+               [] c = 2 -> IF Ranged(v) THEN <<MaxOf2(lo, k + 1), v.hi>> ELSE <<1, 0>>    \* v > k
+               [] c = 3 -> IF Ranged(v) THEN <<MaxOf2(lo, k), v.hi>> ELSE <<1, 0>>        \* v >= k
+               [] OTHER -> <<1, 0>> IN
+    IF v.t # "s" \/ k < 0 \/ k >= MAXVAR \/ r[1] > r[2] \/ (Ranged(v) /\ (r[1] < v.lo \/ r[2] > v.hi)) THEN v
+    ELSE MkS(r[1], r[2], al)
 Known(o) == o # UNK
 AddOff(o, d) == IF Known(o) /\ Known(d) THEN o + d ELSE UNK
 ImmInt(i) == WToS32(WSext(i.imm, 8))
@@ -110,6 +150,27 @@ Nxt(regs) == Goto(vpc + 1, regs, vinit, vrange, vnext)
 SetR(r, v) == [vreg EXCEPT ![r] = v]
 
 (* ---- ALU ---------------------------------------------------------------------------------------- *)
+(* X10-c: pointer p (stack, packet, map value) + / - the scalar v, result into i.dst.  `isimm`: v is the immediate k
+   (any 32-bit value); otherwise v is a register, usable only if its range is known (adjust_ptr_min_max_vals:
+   "math between %s pointer and register with unbounded min value is not allowed", later "unbounded memory access").
+   A known constant moves the fixed offset; a proper range is kept only on map value pointers and only for +.      *)
+VPtrAdd(i, p, v, isimm, k, code) ==
+    IF p.t = "mv" /\ p.nul THEN Reject("arithmetic-on-possibly-null-pointer")
+    ELSE IF ~isimm /\ ~Ranged(v) THEN Reject("pointer-plus-unbounded-register")
+    \* "R%d subtraction from stack pointer prohibited"
+    ELSE IF p.t = "stk" /\ code = 1 THEN Reject("subtraction-from-stack-pointer")
+    \* check_reg_sane_offset: "math between %s pointer and %lld is not allowed"
+    ELSE IF isimm /\ (k >= MAXVAR \/ k <= 0 - MAXVAR) THEN Reject("pointer-offset-constant-too-large")
+    ELSE IF isimm \/ v.lo = v.hi THEN
+        LET c == IF isimm THEN k ELSE v.lo
+            delta == IF code = 0 THEN c ELSE 0 - c IN
+        \* check_reg_sane_offset on the result: "%s pointer offset %d is not allowed"
+        IF ~Known(p.o) \/ p.o + delta >= MAXVAR \/ p.o + delta <= 0 - MAXVAR THEN Reject("pointer-offset-too-large")
+        ELSE Nxt(SetR(i.dst, [p EXCEPT !.o = p.o + delta]))
+    ELSE IF p.t # "mv" \/ code # 0 THEN Reject("variable-offset-not-modelled")
+    ELSE IF p.vhi + v.hi >= MAXVAR THEN Reject("pointer-offset-too-large")
+    ELSE Nxt(SetR(i.dst, [p EXCEPT !.vlo = p.vlo + v.lo, !.vhi = p.vhi + v.hi,
+                                    !.val = IF p.vhi = 0 THEN v.al ELSE MinN(p.val, v.al)]))
 VAlu(i) ==
     LET code == AluCode(i.op)  is64 == Cls(i.op) = 7
         d == vreg[i.dst]  usesrc == SrcIsReg(i.op) /\ code \notin {8, 13}
@@ -126,31 +187,18 @@ VAlu(i) ==
     ELSE IF code = 8 /\ SrcIsReg(i.op) THEN Reject("bad-alu-code")          \* X10-f: "BPF_NEG uses reserved fields"
     ELSE IF usesrc /\ s.t = "u" THEN Reject("read-of-unwritten-register")
     ELSE IF code = 11 THEN                                          \* MOV
-        (IF is64 THEN Nxt(SetR(i.dst, s))
+        (IF is64 THEN Nxt(SetR(i.dst, IF usesrc THEN s ELSE ScalarAlu(i.op, ImmInt(i), VS)))   \* X10-c: a constant
          ELSE IF IsPtr(s) \/ s.t = "map" THEN Reject("32-bit-move-of-pointer") ELSE Nxt(SetR(i.dst, VS)))
     ELSE IF d.t = "u" THEN Reject("read-of-unwritten-register")
     ELSE IF ~SrcIsReg(i.op) /\ code \in {6, 7, 12} /\ (ImmInt(i) < 0 \/ ImmInt(i) >= bits) THEN Reject("constant-shift-too-large")
     ELSE IF ~SrcIsReg(i.op) /\ code \in {3, 9} /\ ImmInt(i) = 0 THEN Reject("constant-division-by-zero")
-    ELSE IF d.t = "s" /\ s.t = "s" THEN Nxt(SetR(i.dst, VS))
+    ELSE IF d.t = "s" /\ s.t = "s" THEN Nxt(SetR(i.dst, ScalarAlu(i.op, ImmInt(i), d)))              \* X10-c
     ELSE IF d.t = "map" \/ s.t = "map" THEN Reject("arithmetic-on-map-handle")
     ELSE IF ~is64 THEN Reject("32-bit-arithmetic-on-pointer")
     ELSE IF d.t \in {"stk", "pkt", "mv"} /\ s.t = "s" /\ code \in {0, 1} THEN        \* pointer +- scalar
-        (IF d.t = "mv" /\ d.nul THEN Reject("arithmetic-on-possibly-null-pointer")
-         \* X10-c: the kernel needs a BOUNDED register here ("math between .. pointer and register with unbounded min
-         \* value", "unbounded memory access"); this model has no scalar ranges, and the generator adds constants only
-         ELSE IF SrcIsReg(i.op) THEN Reject("pointer-plus-register-not-modelled")
-         \* X10-c: "R%d subtraction from stack pointer prohibited"
-         ELSE IF d.t = "stk" /\ code = 1 THEN Reject("subtraction-from-stack-pointer")
-         \* X10-c: check_reg_sane_offset: "math between %s pointer and %lld is not allowed"
-         ELSE IF ImmInt(i) >= MAXVAR \/ ImmInt(i) <= 0 - MAXVAR THEN Reject("pointer-offset-constant-too-large")
-         ELSE LET delta == IF code = 0 THEN ImmInt(i) ELSE 0 - ImmInt(i) IN
-              \* X10-c: check_reg_sane_offset on the result: "%s pointer offset %d is not allowed"
-              IF ~Known(d.o) \/ d.o + delta >= MAXVAR \/ d.o + delta <= 0 - MAXVAR
-              THEN Reject("pointer-offset-too-large")
-              ELSE Nxt(SetR(i.dst, [d EXCEPT !.o = d.o + delta])))
+        VPtrAdd(i, d, IF SrcIsReg(i.op) THEN s ELSE MkS(ImmInt(i), ImmInt(i), 1), ~SrcIsReg(i.op), ImmInt(i), code)  \* X10-c
     ELSE IF d.t = "s" /\ s.t \in {"stk", "pkt", "mv"} /\ code = 0 THEN               \* scalar + pointer
-        (IF s.t = "mv" /\ s.nul THEN Reject("arithmetic-on-possibly-null-pointer")
-         ELSE Reject("pointer-plus-register-not-modelled"))                             \* X10-c (as above)
+        VPtrAdd(i, s, d, FALSE, 0, 0)                                                             \* X10-c
     ELSE Reject("forbidden-pointer-arithmetic")
 
 (* ---- memory access ------------------------------------------------------------------------------ *)
@@ -168,7 +216,8 @@ Access(p, off, n, write) ==
          ELSE "")
     ELSE IF p.t = "mv" THEN
         (IF p.nul THEN "dereference-of-possibly-null-map-value"
-         ELSE IF Known(p.o) /\ (p.o + off < 0 \/ p.o + off + n > VMaps[p.fd].vs) THEN "map-value-out-of-bounds"
+         \* X10-c: fixed offset plus the bounds of the variable part (check_map_access)
+         ELSE IF p.o + p.vlo + off < 0 \/ p.o + p.vhi + off + n > VMaps[p.fd].vs THEN "map-value-out-of-bounds"
          ELSE "")
     ELSE IF p.t = "ctx" THEN
         (IF write THEN "store-to-context"
@@ -210,6 +259,8 @@ VStore(i) ==
     \* modelled: the fetching ones write a register, other values are "BPF_ATOMIC uses invalid atomic opcode"
     ELSE IF Cls(i.op) = 2 /\ Mode(i.op) # 3 THEN Reject("bad-store-mode")
     ELSE IF atomic /\ ImmInt(i) # 0 THEN Reject("atomic-operation-not-modelled")
+    \* X10-g: check_atomic -> check_mem_access with strict alignment: "misaligned value access off .. size .."
+    ELSE IF atomic /\ p.t = "mv" /\ ((p.o + i.off) % n # 0 \/ (p.vhi > 0 /\ p.val % n # 0)) THEN Reject("misaligned-atomic")
     ELSE IF atomic /\ p.t = "stk" /\ ~({p.o + i.off + k : k \in 0 .. (n - 1)} \subseteq vinit)
          THEN Reject("read-of-uninitialised-stack")
     ELSE IF Mode(i.op) \notin {3, 6} THEN Reject("bad-store-mode")
@@ -247,7 +298,11 @@ VJmpOutcome(i, taken) ==
         nullcheck == d.t = "mv" /\ d.nul /\ ~SrcIsReg(i.op) /\ ImmInt(i) = 0 /\ code \in {1, 5}
         \* JEQ (1): taken means == 0 ; JNE (5): taken means # 0
         isnull == (code = 1) = taken
-        regs == IF nullcheck THEN NullKnown(d.id, isnull) ELSE vreg
+        \* X10-c: what an unsigned 64-bit comparison with a constant tells about the scalar compared
+        regs == IF nullcheck THEN NullKnown(d.id, isnull)
+                ELSE IF d.t = "s" /\ Cls(i.op) = 5 /\ ~SrcIsReg(i.op)
+                     THEN [vreg EXCEPT ![i.dst] = Refined(code, d, ImmInt(i), taken)]
+                ELSE vreg
         proved == IF Cls(i.op) = 5 /\ SrcIsReg(i.op) THEN Proves(code, d, s, taken) ELSE 0 IN
     \* X10-a: the generator emits forward jumps only; the kernel accepts some loops, this model none
     IF target <= vpc THEN Reject("backward-jump")
@@ -287,13 +342,14 @@ VCall(i) ==
          IF mp.type = "prog" THEN Reject("map-helper-on-program-array")
          ELSE IF ~StackBytesOK(vreg[2], mp.ks) THEN Reject("helper-key-not-initialised-stack")
          ELSE IF f = 1 THEN
-             Goto(vpc + 1, Scrubbed([t |-> "mv", fd |-> fd, o |-> 0, nul |-> TRUE, id |-> vnext]),
+             Goto(vpc + 1, Scrubbed([t |-> "mv", fd |-> fd, o |-> 0, nul |-> TRUE, id |-> vnext,
+                                  vlo |-> 0, vhi |-> 0, val |-> 8])  (* X10-c: no variable part yet *),
                   vinit, vrange, vnext + 1)
          ELSE IF f = 2 /\ ~(\/ StackBytesOK(vreg[3], mp.vs)
                             \/ (vreg[3].t = "mv" /\ ~vreg[3].nul)) THEN Reject("helper-value-not-initialised-memory")
          \* the helper reads mp.vs bytes: inside a map value they must lie inside that value (found with F35)
-         ELSE IF f = 2 /\ vreg[3].t = "mv" /\ Known(vreg[3].o)
-                       /\ (vreg[3].o < 0 \/ vreg[3].o + mp.vs > VMaps[vreg[3].fd].vs)
+         ELSE IF f = 2 /\ vreg[3].t = "mv" /\ Known(vreg[3].o)                            \* X10-c: variable part
+                       /\ (vreg[3].o + vreg[3].vlo < 0 \/ vreg[3].o + vreg[3].vhi + mp.vs > VMaps[vreg[3].fd].vs)
               THEN Reject("helper-value-outside-map-value")
          ELSE IF f = 2 /\ vreg[4].t # "s" THEN Reject("helper-flags-not-scalar")
          ELSE Goto(vpc + 1, Scrubbed(VS), vinit, vrange, vnext)
